@@ -113,6 +113,10 @@ def typed_trees(tier, seed):
         for x in I_SMALL[:4]:
             out.append((ty(op), ("bin", op, ("neg", x), I_SMALL[0])))
             out.append((ty(op), ("bin", op, I_SMALL[1], ("neg", x))))
+    for op in CMP:
+        for x, y in itertools.product(I_SMALL, I_SMALL):
+            out.append(("B", ("not", ("bin", op, x, y))))
+            out.append(("B", ("bin", "==", ("not", ("bin", op, x, y)), B_ATOMS[2])))
     for op in LOGIC + ["==", "!="]:
         for x in B_ATOMS:
             out.append(("B", ("bin", op, ("not", x), B_ATOMS[2])))
@@ -211,10 +215,10 @@ def build_cond_program(chunk):
     return src
 
 
-def expected(e, ty, ctx, val, last=0x78):
+def expected(e, ty, ctx, val, last=0x78, env=None):
     data = dict(val)
     try:
-        v, t = cexpr.ev(e, ENV, data, last)
+        v, t = cexpr.ev(e, env or ENV, data, last)
     except cexpr.CUB:
         return None
     if ctx.startswith("assign:"):
@@ -228,6 +232,7 @@ def expected(e, ty, ctx, val, last=0x78):
 
 
 ENV = cexpr.Env(DECLS)
+ENV_UNSAFE = cexpr.Env(DECLS, unsafe_index=True)
 
 
 def traps(e, val, last=0x78):
@@ -281,8 +286,9 @@ def check_chunk(item):
     with cp:
         ops = []
         plans = []
+        env = ENV_UNSAFE if "-funsafe-string-indexing" in argv else ENV
         for val in vals:
-            exps = [expected(e, ty, ctx, val) for (ty, e, ctx) in chunk]
+            exps = [expected(e, ty, ctx, val, env=env) for (ty, e, ctx) in chunk]
             if kind == "divp" and any(traps(e, val) for (ty, e, ctx) in chunk):
                 res["ub"] += len(chunk)
                 continue
@@ -407,6 +413,10 @@ def run(tier, seed):
     condsel = [(ty, e, "cond") for k, (ty, e) in enumerate(trees) if k % (9 if tier == "quick" else 2) == seed % (9 if tier == "quick" else 2) and not has(e, lambda x: x[0] == "last") and not has(e, isdiv)]
     for i in range(0, len(condsel), 40):
         items.append((condsel[i:i + 40], vals[:8], [], "cond"))
+    # unsafe indexing (in-range reads only; out-of-range ones are undefined and skipped by the evaluator)
+    idxs = [x for x in plain if has(x[1], lambda e: e[0] == "idx")]
+    for i in range(0, len(idxs), per):
+        items.append((idxs[i:i + per], vals, ["-funsafe-string-indexing"], "plain"))
     if tier == "thorough":
         for i in range(0, len(plain), per * 4):
             items.append((plain[i:i + per], vals[:10], ["-O3", "-fstrings-as-u8", "-fallocate-str-space-dynamic"], "plain"))
